@@ -13,32 +13,32 @@ import (
 
 // Profile is the property specific part of the generator: operation weights and configuration options.
 type Profile struct {
-	Name     string
-	Cfg      CfgOpts
-	W        map[string]int
-	Gang     int // permille of applications that are gang applications
-	Aged     int // permille of asks back-dated past the reservation delay
-	ReqNode  int // permille of asks with a required node
-	PredDeny int // permille of (key,node) pairs the predicate denies
-	Steps    [2]int
-	MaxNodes int
-	MaxApps  int
-	NodeCap  [2]int
-	AskSize  [2]int
-	Reloads  bool
-	Closing  bool
+	Name            string
+	Cfg             CfgOpts
+	W               map[string]int
+	Gang            int // permille of applications that are gang applications
+	Aged            int // permille of asks back-dated past the reservation delay
+	ReqNode         int // permille of asks with a required node
+	PredDeny        int // permille of (key,node) pairs the predicate denies
+	Steps           [2]int
+	MaxNodes        int
+	MaxApps         int
+	NodeCap         [2]int
+	AskSize         [2]int
+	Reloads         bool
+	Closing         bool
 	PreemptScenario int // permille of cases that start with the directed preemption world
-	Scenario int // permille of cases that start with the directed interrupted-swap prefix
-	SwapTouch int // permille: how often a release/update may target the real half of an in-flight swap
-	Restart  int // permille: how often an ask may be sent to a Completing application (restart)
+	Scenario        int // permille of cases that start with the directed interrupted-swap prefix
+	SwapTouch       int // permille: how often a release/update may target the real half of an in-flight swap
+	Restart         int // permille: how often an ask may be sent to a Completing application (restart)
 }
 
 type tgInfo struct {
-	Name      string
-	Count     int
-	Res       res.R
-	PHSent    int
-	RealSent  int
+	Name     string
+	Count    int
+	Res      res.R
+	PHSent   int
+	RealSent int
 }
 
 type gApp struct {
@@ -49,17 +49,17 @@ type gApp struct {
 }
 
 type Gen struct {
-	R     *Rng
-	M     *CfgMeta
-	E     *Engine
-	P     *Profile
-	nodeN int
-	appN  int
-	keyN  int
-	apps  map[string]*gApp
-	dynN  int
-	forN  int
-	cfgSeed uint64
+	R           *Rng
+	M           *CfgMeta
+	E           *Engine
+	P           *Profile
+	nodeN       int
+	appN        int
+	keyN        int
+	apps        map[string]*gApp
+	dynN        int
+	forN        int
+	cfgSeed     uint64
 	pendingMeta *CfgMeta
 }
 
@@ -502,7 +502,6 @@ func (g *Gen) makeAsk() *Op {
 	}
 	return op
 }
-
 
 // typeChangeWithApps: the new configuration turns a leaf with applications into a parent, or a parent with
 // applications below it into a leaf.
